@@ -361,6 +361,7 @@ func init() {
 		{"h2c", 2, (*World).opH2C},
 		{"point-coincident", 2, (*World).opCoincident},
 		{"collect-garbage", 2, (*World).opCollect},
+		{"point-burst", 2, (*World).opBurst},
 	}
 }
 
@@ -374,7 +375,7 @@ func (w *World) opWeights() []int {
 			switch k.name {
 			case "point-grouplaw":
 				b *= 3
-			case "point-observe", "point-rescale", "point-coincident":
+			case "point-observe", "point-rescale", "point-coincident", "point-burst":
 				b *= 2
 			case "key-construct", "key-access", "caller-mutation":
 				b /= 4
